@@ -358,10 +358,15 @@ def check_main(pid, prop, tier, seed):
         # 2. model <-> code
         okd, logd = ensure_driver()
         corrs = []
+        touched = []
         if not okd:
             broken.append({'kind': 'driver-build', 'name': 'ptndriver', 'detail': logd[-800:]})
         else:
-            corrs = prop.correspondence(tier, seed)
+            # advisory fingerprint: if a file this property is anchored in was edited, the quick tier runs the thorough case counts
+            from . import fingerprint
+            touched = fingerprint.changed_files(pid, REPO)
+            corr_tier = 'thorough' if (touched and tier == 'quick') else tier
+            corrs = prop.correspondence(corr_tier, seed)
             for c in corrs:
                 if c.n_disagree():
                     first = next(d for d in c.disagreements if d)
@@ -413,6 +418,7 @@ def check_main(pid, prop, tier, seed):
                                  'branches': c.branches, 'notes': c.notes} for c in corrs],
             'exhaustive': any(c.exhaustive for c in corrs),
             'not_proved': obl.get('not_proved', []),
+            'source_fingerprint_changed': touched if okd else None,
         }
         evidence = {
             'property_id': pid, 'tier': tier, 'seed': seed, 'level': 'proof',
